@@ -35,7 +35,8 @@ def _one_run(job):
     import emg3d
     from emg3d import _multiprocessing as _mp
     from . import simreplay, c11worker
-    maxw, file_mode, use_tqdm, perm, seed, ref = job
+    maxw, file_mode, use_tqdm, perm, seed, ref, gmode = job
+    ref = ref[gmode] if gmode in ref else ref
     tmp = tempfile.mkdtemp(prefix="c11-")
     evfile = os.path.join(tmp, "events")
     os.environ["C11_EVENTS"] = evfile
@@ -48,7 +49,13 @@ def _one_run(job):
             g0, (2, 2, 2, 0, 0), 1.0), plain=True, verb=0, maxit=1)
         prob = simreplay.Problem(dict(four=True), seed=5)
         prob.obs = np.array(ref["obs_re"]) + 1j*np.array(ref["obs_im"])
-        sim = prob.simulation(0, os.path.join(tmp, "fd") if file_mode else None)
+        if gmode != "same" and ref.get("res"):
+            # another simulation (other model, same grids) in this process
+            # first: results must not depend on what was computed before
+            pre = prob.simulation(1, None, gmode)
+            pre.compute()
+        sim = prob.simulation(0, os.path.join(tmp, "fd") if file_mode else None,
+                              gmode)
         sim.max_workers = maxw
         if not use_tqdm:
             _mp.tqdm = None
@@ -165,7 +172,7 @@ def _one_run(job):
             pack["misfit"] = res["misfit"]
         return {"trace": {"ev": ev, "maxworkers": maxw, "tqdm": use_tqdm},
                 "diffs": diffs, "order": order, "pack": pack,
-                "job": [maxw, file_mode, use_tqdm, perm, seed]}
+                "job": [maxw, file_mode, use_tqdm, perm, seed, gmode]}
     except Exception as e:  # noqa
         import traceback
         return {"fatal": f"{type(e).__name__}: {e}\n{traceback.format_exc()}"}
@@ -184,7 +191,7 @@ def run_jobs(jobs, par):
 def key_of(job):
     maxw, fm, tq, perm, seed = job[:5]
     return (f"max_workers={maxw};{'file' if fm else 'memory'};"
-            f"{'tqdm' if tq else 'notqdm'};delays={perm}")
+            f"{'tqdm' if tq else 'notqdm'};delays={perm};grids={job[6]}")
 
 
 def run(tier, replay=None):
@@ -212,17 +219,21 @@ def run(tier, replay=None):
         if False else None
     prob = simreplay.Problem(dict(four=True), seed=5).prepare()
     obs = prob.obs
-    ref = {"obs_re": obs.real.tolist(), "obs_im": obs.imag.tolist()}
-    r0 = run_jobs([(1, False, False, None, 0, ref)], 1)[0]
-    if "fatal" in r0:
-        raise C.MachineryError(r0["fatal"])
-    ref["res"] = r0["pack"]
+    ref = {}
+    GM = ("same", "input", "dict")
+    for gm in GM:
+        ref[gm] = {"obs_re": obs.real.tolist(), "obs_im": obs.imag.tolist()}
+    r0s = run_jobs([(1, False, False, None, 0, ref, gm) for gm in GM], 3)
+    for gm, r0 in zip(GM, r0s):
+        if "fatal" in r0:
+            raise C.MachineryError(r0["fatal"])
+        ref[gm]["res"] = r0["pack"]
     perms = list(itertools.permutations(range(4)))
     jobs = []
     if replay:
         with open(replay) as f:
             j = json.load(f)["case"]["job"]
-        jobs = [(j[0], j[1], j[2], j[3], j[4], ref)]
+        jobs = [(j[0], j[1], j[2], j[3], j[4], ref, j[5])]
     else:
         if tier == "quick":
             ws = [1, 2, 3, 4, 16] + rng.sample([5, 6, 7, 8, 9, 10, 11, 12, 13,
@@ -231,23 +242,29 @@ def run(tier, replay=None):
                 for fm in (False, True):
                     tq = rng.random() < 0.5
                     jobs.append((w, fm, tq, list(rng.choice(perms)),
-                                 rng.randrange(10**6), ref))
+                                 rng.randrange(10**6), ref, rng.choice(GM)))
             for p in rng.sample(perms, 6):
                 jobs.append((4, rng.random() < 0.5, rng.random() < 0.5,
-                             list(p), rng.randrange(10**6), ref))
-            jobs.append((1, False, True, None, 0, ref))
-            jobs.append((1, True, False, None, 0, ref))
+                             list(p), rng.randrange(10**6), ref,
+                             rng.choice(GM)))
+            jobs.append((1, False, True, None, 0, ref, "same"))
+            jobs.append((1, True, False, None, 0, ref, "dict"))
+            jobs.append((1, False, False, None, 0, ref, "input"))
+            jobs.append((2, False, False, [3, 2, 1, 0], 0, ref, "dict"))
+            jobs.append((3, True, True, [1, 3, 0, 2], 0, ref, "dict"))
         else:
             for p in perms:
                 for w in (2, 3, 4):
                     for fm in (False, True):
                         jobs.append((w, fm, rng.random() < 0.5, list(p),
-                                     rng.randrange(10**6), ref))
+                                     rng.randrange(10**6), ref,
+                                     rng.choice(GM)))
             for w in range(1, 17):
                 for fm in (False, True):
                     for tq in (False, True):
                         jobs.append((w, fm, tq, list(rng.choice(perms)),
-                                     rng.randrange(10**6), ref))
+                                     rng.randrange(10**6), ref,
+                                     rng.choice(GM)))
     results = run_jobs(jobs, 4 if tier == "quick" else 5)
     fatal = [r for r in results if "fatal" in r]
     if fatal:
@@ -265,14 +282,16 @@ def run(tier, replay=None):
         rep.violation(f"C11:trace:{why}:{key_of(jobs[i])}",
                       f"recorded batches are not a behaviour of ProcessMap "
                       f"({why}); matched {k}/{d['of']}; next {nxt}",
-                      {"job": list(jobs[i][:5]), "trace": traces[i],
+                      {"job": list(jobs[i][:5]) + [jobs[i][6]],
+                       "trace": traces[i],
                        "diag": d})
     for r, job in zip(results, jobs):
         if r["diffs"]:
             rep.violation(f"C11:bits:{key_of(job)}:{','.join(r['diffs'])}",
                           "results differ from the sequential in-memory run: "
                           + ", ".join(r["diffs"]),
-                          {"job": list(job[:5]), "order": r["order"]})
+                          {"job": list(job[:5]) + [job[6]],
+                           "order": r["order"]})
     orders = {tuple(o) for r in results for o in r["order"] if len(o) == 4}
     rep.cov["runs"] = len(jobs)
     rep.cov["batches_validated"] = sum(
